@@ -393,7 +393,7 @@ impl Part for Windows {
     }
     fn rule(&self) -> String {
         "diagonal and low-rank NUTS and MCLMC presets, num_tune 20..400 (thorough 1500), early_window in [0,0.6], step_size_window in [0,0.5], \
-         switch frequency 1..100, early switch frequency 1..30, update frequency 1..50, growth in [1,3], wall densities and maxdepth 1..5 \
+         switch frequency 1..100, early switch frequency 1..30, update frequency 1..50, growth in [1,3], dual-averaging (gamma, t0, k, max_step_size) and Adam options and the initial step size non-default in half of the cases, wall densities and maxdepth 1..5 \
          (rejected / stuck draws occur); probe after every draw; non-trivial = >= 2 main-phase switches and >= 1 rejected draw inside a window; \
          distinct by (preset, num_tune, frequencies, switches)"
             .into()
@@ -435,6 +435,18 @@ impl Part for Windows {
                 spec.use_grad_based = grad_based;
                 spec.step_size = 0.4;
                 spec.decoherence = 1.2;
+                // half of the cases: non-default dual-averaging / Adam options and initial step size (derived from the seed), so
+                // that the step-size search ends by halving as well as by doubling and the options in force after a restart
+                // are visible in the replay
+                if seed % 2 == 0 {
+                    let u = |k: u32| ((seed >> (8 * k)) & 0xff) as f64 / 255.0;
+                    spec.da_gamma = 0.02 * (25.0f64).powf(u(1));
+                    spec.da_t0 = 1.0 + 29.0 * u(2);
+                    spec.da_k = 0.55 + 0.4 * u(3);
+                    spec.da_max_step = 0.3 * (30.0f64).powf(u(4));
+                    spec.initial_step = 0.01 * (500.0f64).powf(u(5));
+                    spec.adam_lr = 0.01 * (20.0f64).powf(u(6));
+                }
                 Case { spec, dens, init }
             })
             .boxed()
